@@ -769,8 +769,8 @@ def with_timeout(f, seconds):
         signal.signal(signal.SIGALRM, old)
 
 
-CASE_TIMEOUT = 90.0       # a case normally takes well under a second
-SHRINK_TIMEOUT = 20.0
+CASE_TIMEOUT = 40.0       # a case normally takes well under a second
+SHRINK_TIMEOUT = 6.0
 
 
 def judge(case, tmp, timeout, full_every=False):
@@ -828,9 +828,12 @@ def shrink(case, tmp, sig):
         if c['kind'] == 'demo':
             c['base_n'] = min(c.get('base_n', 0), max(len(txns) - 1, 0))
         return c
-    txns = ddmin(case['txns'], lambda ts: fails_case(with_txns(ts)), max_tests=150)
+    hang = sig.endswith(':hang')
+    txns = ddmin(case['txns'], lambda ts: fails_case(with_txns(ts)), max_tests=25 if hang else 150)
     if not fails_case(with_txns(txns)):
         txns = case['txns']
+    if hang:
+        return with_txns(txns)
     # then ops inside each transaction, reopen flags, metadata
     for i in range(len(txns)):
         t = txns[i]
